@@ -395,6 +395,10 @@ func c08(c *Ctx) (*report.Result, error) {
 	}
 	checkShardKeyFunction(c, res, "O8.9")
 	checkRegistrationNotifies(c, res, "O8.10")
+	res.RuleDoc["O8.12"] = "lock discipline of the registries: every access of the shard manager's registry maps (localShards, activeReceivers, remoteSendChannels, localAckChannels, localReceiverCancelFuncs, remoteNodeStates) and of the intra-proxy manager's peer table - the load of the field and every lookup, update, delete, range step and len on the loaded map - is made while the paired mutex is held, writes under the write lock"
+	checkGuardedFields(c, res, "O8.12", "proxy", 60)
+	res.RuleDoc["O8.13"] = "locks of the registries are paired: in package proxy every Lock / RLock is released on every way out of the function (Unlock on the path or a deferred one) and every Unlock releases a lock the function took"
+	checkLockPairing(c, res, "O8.13", []string{"proxy"}, 80)
 	res.RuleDoc["O8.11"] = "no swallowed error in the files the mechanism lives in: no function returns a nil error on a path on which an error obtained from a call is known to be non-nil (io.EOF from a stream Recv, the normal end of a receive loop, is the one accepted idiom)"
 	checkNoSwallowedErrors(c, res, "O8.11", []string{"proxy/proxy_streams.go", "proxy/intra_proxy_router.go", "proxy/shard_manager.go"})
 	return res, nil
